@@ -23,7 +23,7 @@ PROP = {
     "rule": ("one real ExocoreApp (4 genesis operators validating with keys 0..3, each also holding pools of assets the dogfood AVS does not accept: USDC priced / DAI never priced, hot pool of 6 consensus keys + fresh keys on demand, dogfood epoch = 'minute'); "
              "7 directed scenarios first (opt-out before activation, replace-then-opt-out, opt-in while removing, A->B->C->A in one epoch, deselected key kept, jail/slash/unjail around a key replacement, epoch identifier exchange), "
              "then random segments of 18..41 steps of the running chain: operator messages OptIntoAVS(with key)/SetConsKey/OptOutOfAVS (alternately through the application's registered MsgServiceRouter handler and a msg server on app.OperatorKeeper), Keeper.OptIn, Keeper.SetOperatorConsKeyForChainID, "
-             "UndelegateFrom, dogfood Keeper.Jail / Unjail / SlashWithInfractionReason by consensus address, dogfood UpdateParams(EpochsUntilUnbonded 1..3, MaxValidators, EpochIdentifier), EndBlock/Commit/BeginBlock with block gaps inside an epoch, "
+             "UndelegateFrom (alternately through DelegationKeeper and through the delegation precompile instance registered with the EVM keeper, caller = gateway), dogfood Keeper.Jail / Unjail / SlashWithInfractionReason by consensus address, dogfood UpdateParams(EpochsUntilUnbonded 1..3, MaxValidators, EpochIdentifier), EndBlock/Commit/BeginBlock with block gaps inside an epoch, "
              "across one epoch end, or several epochs behind; keys drawn from the whole pool so that collisions with other operators' current, "
              "previous and not-yet-pruned keys are frequent; distinct = distinct case line; non-trivial = at least 3 op kinds"),
     "explanation": ("Theorems (Coq) about the executable model Dogfood/Model.v of the key registry and the dogfood queues for ALL histories; the "
